@@ -15,15 +15,20 @@ seed = wt / "seed"
 out = Path("/verif/seeded") / name
 out.mkdir(parents=True, exist_ok=True)
 for f in ("patch.diff", "demo.py", "meta.json"):
+    if "--demo-only" in sys.argv:
+        break
     if not (seed / f).exists():
         sys.exit(f"missing {seed / f}")
     shutil.copy(seed / f, out / f)
 meta = json.load(open(out / "meta.json"))
 tmp = Path(tempfile.mkdtemp(prefix="pvs_seed_"))
-env = dict(os.environ, TQDM_DISABLE="1", MPLBACKEND="Agg")
+env = dict(os.environ, TQDM_DISABLE="1", MPLBACKEND="Agg", NUMBA_NUM_THREADS="2")
+demo_only = "--demo-only" in sys.argv
 rec = {"confirmed_at": time.strftime("%Y-%m-%d %H:%M"), "repo_head": subprocess.run(["git", "-C", "/repo", "rev-parse", "--short", "HEAD"], capture_output=True, text=True).stdout.strip()}
 try:
     subprocess.run(f"git -C /repo archive HEAD | tar -x -C {tmp}", shell=True, check=True)
+    # the demos must import the scratch copy, not the editable install of /repo
+    env["PYTHONPATH"] = str(tmp)
     r0 = subprocess.run(["/venv/bin/python", str(out / "demo.py")], cwd=tmp, capture_output=True, text=True, env=env, timeout=1200)
     rec["demo_without_change"] = {"exit": r0.returncode, "tail": (r0.stdout + r0.stderr)[-400:]}
     ap = subprocess.run(["git", "apply", "--directory", ".", str(out / "patch.diff")], cwd=tmp, capture_output=True, text=True)
@@ -38,15 +43,16 @@ try:
     rec["demo_with_change"] = {"exit": r1.returncode, "tail": (r1.stdout + r1.stderr)[-600:]}
     # checks
     fired = {}
-    for i in range(1, 21):
+    for i in ([] if demo_only else range(1, 21)):
         p = f"C{i:02d}"
         e2 = dict(env, PVS_REPO=str(tmp), PVS_EVIDENCE_DIR=str(tmp / "ev"))
         r = subprocess.run(["/venv/bin/python", "-m", "pvs.check", p], cwd="/verif", capture_output=True, text=True, env=e2)
         if r.returncode != 0:
             lines = [l.strip()[:260] for l in r.stdout.splitlines() if l.strip().startswith(("tdgl/", "[R", "ANALYSIS")) or "[R" in l[:60]]
             fired[p] = {"exit": r.returncode, "reports": lines[:4]}
-    rec["checks_fired"] = fired
-    if suite:
+    if not demo_only:
+        rec["checks_fired"] = fired
+    if suite and not demo_only:
         t0 = time.time()
         subprocess.run(["/venv/bin/python", "-m", "pytest", "-q", "-p", "no:cacheprovider", "--timeout=900", "--continue-on-collection-errors",
                         f"--junitxml={tmp}/junit.xml"], cwd=tmp, capture_output=True, text=True, env=env)
@@ -54,6 +60,13 @@ try:
         rec["baseline"] = {"ok": c.returncode == 0, "summary": c.stdout.strip()[:400], "wall_s": round(time.time() - t0)}
 finally:
     shutil.rmtree(tmp, ignore_errors=True)
+if demo_only and "confirmation" in meta:
+    old = meta["confirmation"]
+    for k in ("demo_without_change", "demo_with_change", "patch_applies", "compiles"):
+        if k in rec:
+            old[k] = rec[k]
+    old["demo_rerun_at"] = rec["confirmed_at"]
+    rec = old
 meta["confirmation"] = rec
 json.dump(meta, open(out / "meta.json", "w"), indent=1)
 print(json.dumps({"name": name, "demo": (rec.get("demo_without_change", {}).get("exit"), rec.get("demo_with_change", {}).get("exit")),
